@@ -466,9 +466,9 @@ class C20(Base):
 
 
 def non_ascii_ledger_lines():
-    """the recorded finding (known_findings.json, C20-non-ascii-counterparty): a counterparty identifier with a character outside
-    ASCII passes validation, but as a non-terminal part of a collections key only the first byte of each character is stored: the
-    entry comes back under another identifier, or the listing and the export fail and come back empty. Kept in a stream of its own."""
+    """a counterparty identifier with a character outside ASCII: as a non-terminal part of a collections key only the first byte of
+    each character would be stored (defect repaired by 8388b7e, findings/C20-non-ascii-counterparty.replay.json): such a genesis is
+    refused by validation, by the model and by the implementation alike, and nothing is stored."""
     lines, _ = scen.base_setup()
     o_ = "n\u00f6ble"
     for g in ("amts=[1|%s|4|%s|%s|5|5];cnts=[1|%s|4|%s|3]" % (hx("channel-0"), hx(o_), hx("uusdc"), hx("channel-0"), hx(o_)),
